@@ -42,7 +42,7 @@ def uindex {α : Type} (xs : List α) (i : Nat) : Except Panic α :=
 def errNotNil {ε : Type} (e : Option ε) : Bool := e.isSome
 
 /-- `errors.Is(err, target)`: false for a nil error. -/
-def errIs {ε : Type} [DecidableEq ε] (e : Option ε) (target : ε) : Bool := decide (e = some target)
+def errIsOpt {ε : Type} [DecidableEq ε] (e : Option ε) (target : ε) : Bool := decide (e = some target)
 
 /-- The cells `0 … n-1` of a fresh slice, each computed by its own iteration. -/
 def tabulate {α : Type} (n : Nat) (f : Nat → Except Panic α) : Except Panic (List α) :=
